@@ -70,7 +70,8 @@ def step (det : Det) (st : St) : Ev → St × Bool
     if det == .convert && st.binOff.isSome then (st, false)
     else ({ st with out := st.out ++ [.matchLine ln bs] }, true)
   | .context _ ln bs =>
-    if det == .convert && st.binOff.isSome then (st, false)
+    -- not printed, but the search goes on (fix 8b6e9fb): the notice is due once a match is seen
+    if det == .convert && st.binOff.isSome then (st, true)
     else ({ st with out := st.out ++ [.contextLine ln bs] }, true)
   | .ctxBreak => ({ st with out := st.out ++ [.sep] }, true)
   | .binaryData off => ({ st with binOff := some off }, true)
@@ -97,6 +98,25 @@ def feed (det : Det) : St → List Ev → St
 
 /-- One search printed by the standard printer (`begin` resets the state). -/
 def stdRun (det : Det) (evs : List Ev) : List Item := finish det (feed det {} evs)
+
+/-! ### executable predicates on streams (guards of the partial theorems) -/
+
+def Ev.isBinaryData : Ev → Bool
+  | .binaryData _ => true
+  | _ => false
+
+def Ev.isMatched : Ev → Bool
+  | .matched _ _ _ => true
+  | _ => false
+
+def Ev.isContext : Ev → Bool
+  | .context _ _ _ => true
+  | _ => false
+
+/-- Guard of the partial statement `C14_partial_quit`: whenever a line was delivered before the
+detection, a matching line was. -/
+def MatchIfLine (pre : List Ev) : Bool :=
+  !(pre.any (fun e => e.isMatched || e.isContext)) || pre.any (fun e => e.isMatched)
 
 /-! ### rendering (`-H --no-heading -n --color never`) -/
 
